@@ -29,7 +29,7 @@ from . import stdsrc
 PID = "C19"
 BATCH = 200
 CFG = {"quick": "Stdlib_quick", "thorough": "Stdlib_thorough"}
-SIM = {"quick": ("Stdlib_sim", 1200), "thorough": ("Stdlib_sim", 40000)}   # traces per worker
+SIM = {"quick": ("Stdlib_sim", 1200), "thorough": ("Stdlib_sim", 80000)}   # traces per worker
 WORKERS = 6
 HELPERS = {   # every helper the property names -> the REPLAY `h` values that exercise it
     "lists.len": ["len"], "lists.reverse": ["reverse"], "lists.head": ["head"], "lists.tail": ["tail"],
@@ -789,7 +789,8 @@ class SourceCheck:
     def __init__(self, hp, tier, open_devs):
         import sys
         self.gd = C.gen_dir("c19src")
-        self.size = "srcq" if tier == "quick" else "src"
+        # quick: reduced bounds (~8k calls); thorough: the design bounds, the same calls as Stdlib_quick.cfg (~80k)
+        self.size = "srcq" if tier == "quick" else "quick"
         src = stdsrc.load(hp)
         with open(os.path.join(self.gd, "stdsrc.json"), "w", encoding="utf-8") as f:
             json.dump(src, f)
